@@ -190,13 +190,15 @@ let predict_phoutq cap kinds per obs =
 
 (* ---- a whole pool through the real engine (harness/cmd/hC10/engine.go): entries of a uri file, the requests the
    target has received, the lines of the results file ---- *)
-let predict_engine entries obs =
+let predict_engine gun entries obs =
+  let is_grpc = starts "grpc" gun in
   let cfg = { at_enabled = false; at_depth = nat_of_int 2; at_notagonly = true } in
   let ents = Array.of_list (List.map (fun e -> let (t, st) = cut ':' e in (bytes_of_hex t, st)) (String.split_on_char ',' entries)) in
   let m = Array.length ents in
   (* the request of entry i carrying id *)
   let shot_of (i, id) =
     let (tag, st) = ents.(i) in
+    if is_grpc then ShGrpc (tag, GCalled (n_of_string (after_prefix "st" st))) else
     (* trunc: status 500, the body ends before its announced length: an error value without errno (999) *)
     let x = if st = "trunc" then XResp (n_of_int 500, BodyErr (false, EOther)) else XResp (n_of_string st, BodyOk) in
     ShHttp (cfg, false, n_of_int id, tag, bytes_of_string (Printf.sprintf "/e%d" i), x) in
@@ -214,14 +216,19 @@ let predict_engine entries obs =
       let obs_lines = List.filter (fun w -> String.contains w '#') words in
       let ids = List.map (fun w -> let (_, r) = cut '#' w in let (id, _) = cut ':' r in int_of_string id) obs_lines in
       let rec distinct = function a :: (b :: _ as r) -> a <> b && distinct r | _ -> true in
-      let ids_ok = distinct (List.sort compare ids) && List.for_all (fun k -> k >= 1) ids in
+      (* the gRPC gun attaches no ids (the results are written without them: id 0 everywhere) *)
+      let ids_ok = is_grpc || (distinct (List.sort compare ids) && List.for_all (fun k -> k >= 1) ids) in
+      (* the sample the property asks for; gRPC: the DOCUMENTED code of the call status (C10_grpc_table) *)
+      let spec_line sh = match sh with
+        | ShGrpc (tg, GCalled c) -> line { sm_tags = tg; sm_proto = doc_code c; sm_net = n_of_int 0; sm_id = n_of_int 0 }
+        | _ -> line (List.hd (shot_spec sh)) in
       (* which request is a line the sample of?  The ids are handed out at Acquire (any order among concurrently acquiring
          instances), so a line is matched with a received request of an entry whose sample (with the line's id) it is *)
       let remaining = Array.make m 0 in
       List.iter (fun (j, k) -> remaining.(j) <- remaining.(j) + k) served_l;
       let pairs = List.filter_map (fun (w, id) ->
         let rec find i = if i >= m then None
-          else if remaining.(i) > 0 && w = line (List.hd (shot_spec (shot_of (i, id)))) then (remaining.(i) <- remaining.(i) - 1; Some (i, id))
+          else if remaining.(i) > 0 && w = spec_line (shot_of (i, id)) then (remaining.(i) <- remaining.(i) - 1; Some (i, id))
           else find (i + 1) in
         find 0) (List.combine obs_lines ids) in
       let all_matched = List.length pairs = List.length obs_lines in
@@ -469,7 +476,7 @@ let predict (c : string) (obs : string) : string * string * bool =
       (s_trace (gscen_ev_decl nm st), verdict (obs = want) ("expected " ^ want), List.length st > 1)
   | ["scfile"; fmt; k; decls; scens] -> predict_scfile fmt k decls scens obs
   | ["phoutq"; cap; kinds; per] -> predict_phoutq cap kinds per obs
-  | ["engine"; _; _; _; _; _; _; entries] -> predict_engine entries obs
+  | ["engine"; gun; _; _; _; _; _; entries] -> predict_engine gun entries obs
   | ["gshoot"; tag; kind] | ["gshoot"; tag; kind; _] ->
       let call = (if kind = "unknown" then GUnknown else if kind = "badpayload" then GBadPayload
                   else GCalled (n_of_string (after_prefix "st" kind))) in
